@@ -4591,6 +4591,49 @@ impl Interpreter {
         Ok(Guarded::with_guard(JsValue::Object(gen_obj), guard))
     }
 
+    /// The own enumerable properties of `source` as spread, object rest, Object.assign /
+    /// values / entries read them: array elements and the characters of a string included,
+    /// getters called (their results are kept alive by `guard`). Primitives other than
+    /// strings have none.
+    pub fn read_own_enumerable_entries(
+        &mut self,
+        source: &JsValue,
+        guard: &Guard<JsObject>,
+    ) -> Result<Vec<(PropertyKey, JsValue)>, JsError> {
+        let obj = match source {
+            JsValue::Object(obj) => obj,
+            JsValue::String(s) => {
+                return Ok(s
+                    .as_str()
+                    .chars()
+                    .enumerate()
+                    .map(|(i, c)| {
+                        (
+                            PropertyKey::Index(i as u32),
+                            JsValue::String(JsString::from(c.to_string())),
+                        )
+                    })
+                    .collect());
+            }
+            _ => return Ok(Vec::new()),
+        };
+        let raw = obj.borrow().own_enumerable_entries_with_getters();
+        let mut entries = Vec::with_capacity(raw.len());
+        for (key, value, getter) in raw {
+            let value = match getter {
+                Some(getter) => {
+                    let result =
+                        self.call_function(JsValue::Object(getter), source.clone(), &[])?;
+                    result.value.guard_by(guard);
+                    result.value.clone()
+                }
+                None => value,
+            };
+            entries.push((key, value));
+        }
+        Ok(entries)
+    }
+
     /// Collect all values from an iterable using the Symbol.iterator protocol.
     /// Returns a Vec of values if the object is iterable, or None if it doesn't have Symbol.iterator.
     /// For arrays, this falls back to directly reading array elements for efficiency.
